@@ -586,14 +586,17 @@ func Queue[V any](arguments ...any) col.QueueLike[V] {
 	case sequence != nil:
 		queue = class.MakeFromSequence(sequence)
 	case len(source) > 0:
-		queue = class.Make()
 		var collection = notation.ParseSource(source).(col.Sequential[any])
 		// Convert the values to their real type.
+		values = make([]V, 0, collection.GetSize())
 		var iterator = collection.GetIterator()
 		for iterator.HasNext() {
 			var value = iterator.GetNext().(V)
-			queue.AddValue(value)
+			values = append(values, value)
 		}
+		// The capacity must be large enough for all of the values, otherwise
+		// adding them would block forever.
+		queue = class.MakeFromArray(values)
 	default:
 		queue = class.Make()
 	}
